@@ -208,6 +208,14 @@ func drawOps(t *rapid.T, maxW, maxH int, withResize bool) []op {
 		switch {
 		case k < 12:
 			o := op{Kind: "set", X: rapid.IntRange(-2, maxW+1).Draw(t, "x"), Y: rapid.IntRange(-2, maxH+1).Draw(t, "y"), R: drawRune(t), St: drawStyle(t)}
+			if rapid.IntRange(0, 3).Draw(t, "edge") == 0 {
+				// bias towards the right edge and the bottom row, where the
+				// wide-rune and corner special cases live
+				o.X = maxW - rapid.IntRange(0, 3).Draw(t, "fromright")
+				if rapid.Bool().Draw(t, "bottom") {
+					o.Y = maxH - 1
+				}
+			}
 			if lm.Width(o.R) >= 1 && rapid.IntRange(0, 5).Draw(t, "hascomb") == 0 {
 				nc := rapid.IntRange(1, 3).Draw(t, "ncomb")
 				for j := 0; j < nc; j++ {
